@@ -110,6 +110,14 @@ impl ast::Visit for Visitor<'_, '_> {
                 }
             },
 
+            ast::Item::ConstVar { ty_keyword, vars } => {
+                for sp_pat![(var, expr)] in vars {
+                    if let Err(e) = self.check_single_var_decl(*ty_keyword, var, Some(expr)) {
+                        self.errors.set(e);
+                    }
+                }
+            },
+
             _ => ast::walk_item(self, item),
         }
     }
@@ -161,9 +169,10 @@ impl ast::Visit for Visitor<'_, '_> {
 
             ast::StmtKind::CallSub { .. } => unimplemented!("need to check arg types against signature"),
 
-            ast::StmtKind::InterruptLabel { .. } => {},
+            // (these hold expressions that must be integers)
+            ast::StmtKind::InterruptLabel(expr) => self.visit_cond(expr),
+            ast::StmtKind::RelTimeLabel { delta, .. } => self.visit_cond(delta),
             ast::StmtKind::AbsTimeLabel { .. } => {},
-            ast::StmtKind::RelTimeLabel { .. } => {},
             ast::StmtKind::Label { .. } => {},
             ast::StmtKind::ScopeEnd { .. } => {},
             ast::StmtKind::NoInstruction { .. } => {},
